@@ -8,7 +8,8 @@ LEVEL = "proof"
 RULE = ("workspaces of 2-6 marker files exercising imports/unresolved-import, idiomatic/no-defined-entrypoint (location-less) "
         "and the custom aggregate rule vcat/agg-x incl. its invoked-but-empty marker; every set partition of the files for "
         "<= 4 files (random ones above), random merge orders; through the Linter API (collect+export per part, WithAggregates). "
-        "non-trivial = the one-shot run has at least one aggregate violation; distinct = (workspace, partition, order)")
+        "non-trivial = the one-shot run has at least one aggregate violation; distinct = (workspace, partition, order)"
+        ' Also: all partitions / merge orders with the six real aggregate rules (implementation only) and single-file replacements through the real language server cache.')
 TRUSTED = ["Env.AggPermInvariant for the real aggregate rules (sampled here by the merge orders)",
            "Env boundary: rule packages / OPA"]
 ASSUMPTIONS = ["the report run is given the same ignore directives as the one-shot run (false for the real pipeline: finding C09-directives)"]
